@@ -74,14 +74,14 @@ class HBase(object):
             out[i] = self.int("%s[%d]" % (name, i), lo, hi)
         return self._arr(out, int)
 
-    def int_array(self, name, n, lo, hi):
+    def int_array(self, name, n, lo, hi, bits=None):
         """an integer-dtype input array (int64 in replays; an object array with integer-array semantics - results of
         int (op) int stay integer, assignments truncate - in symbolic runs)"""
         vals = [self.int("%s[%d]" % (name, i), lo, hi) for i in range(n)]
         if self.symbolic:
             from .stubs import int_array
-            return int_array(vals)
-        return np.array([int(v) for v in vals], dtype=np.int64)
+            return int_array(vals, bits=bits)
+        return np.array([int(v) for v in vals], dtype={None: np.int64, 8: np.int8, 16: np.int16, 32: np.int32}[bits])
 
     def bools(self, name, n):
         out = np.empty((n,), dtype=object)
